@@ -22,6 +22,8 @@ func init() {
 		Explanation: "Decides that no document- or font-controlled string reaches a file path without the sanitizer, and that attachment extraction detects collisions before writing: (R1 CLEAN) at every call of a file-creating sink (pdfcpu.WriteReader/Write/CopyFile destination, api.openStagedOutput outFile, api.writeCutOutput, api.writeMultiFillOutput*, api.MergeCreateFile outFile, font.writeGob, os.OpenFile with O_CREATE, reservation opens) in pkg/api, pkg/cli and pkg/font the path argument is sliced backwards through filepath.Join/Clean, string concatenation, fmt.Sprintf, local variables, phi nodes, struct fields set in the same function and — interprocedurally — through parameters of unexported functions to all their call sites; every component other than the leading directory must be a constant, a formatted integer, a result of sanitize.Path (success result) / sanitize.PathOr / api.sanitizeFilenamePart, an os.DirEntry name, filepath.Base/Ext/TrimSuffix of such a value, or a string the API caller passed to an exported function (the caller's own names). Anything else (a struct field of a document model type, a dictionary lookup, a decoded name) is reported; (R2) in api.writeAttachments the success of reserveAttachmentOutputs dominates every writeAttachmentToPath; the reservation open carries O_CREATE|O_EXCL; in reserveAttachmentOutputs every path leaving the os.ErrExist branch returns a non-nil error (no continue/skip). (R1, refined) a read of a field of a local aggregate is judged by the stores that can reach it: a store that comes later on every path (the sanitizing assignment after the read) says nothing about the value read, which was set through a pointer by a parser. (R3) the sanitizer itself: its component cleaner ranges over the component it was handed (not over a string derived from it by normalisation or decoding, which could bring separators back after Path has split on '/' and dropped '..'), and package sanitize calls nothing outside strings, unicode, utf8, errors, fmt, path, filepath and the logger. NOT decided: that sanitize.Path itself yields a single safe component for all byte strings (a property of string values), case-folding or Unicode-normalising filesystems.",
 		Rules: []string{
 			"C05.R1 CLEAN: closed-world path construction at file-creating sinks",
+			"C05.R5 shape: the attachment output reservation is taken once for the whole list (not in a loop, not in a helper called from a loop)",
+			"C05.R4 shape: a sanitizer wrapper outside package sanitize returns only results of package sanitize or constants",
 			"C05.R3 shape/WMC: the sanitizer's component cleaner copies only runes of its input; closed set of callees in package sanitize",
 			"C05.R2 MPT: reserve-all-before-write with O_EXCL; an existing reservation always fails the extraction",
 		},
@@ -654,6 +656,10 @@ func runC05(c *Ctx) {
 	r.MinInst["C05.R1"] = 30
 	r.MinInst["C05.R2"] = 3
 	r.MinInst["C05.R3"] = 2
+	r.MinInst["C05.R4"] = 1
+	checkSanitizerWrappers(c)
+	r.MinInst["C05.R5"] = 1
+	checkReservationCoversAll(c)
 	checkSanitizerIntegrity(c)
 	cc := &cleanCtx{c: c, memo: map[ssa.Value]string{}, state: map[ssa.Value]int{}, param: map[*ssa.Parameter]string{}, pst: map[*ssa.Parameter]int{}}
 	fieldStoreIndex = nil
@@ -904,5 +910,133 @@ func checkSanitizerIntegrity(c *Ctx) {
 		r.Bad("C05.R3", "pkg/pdfcpu/sanitize", "anchor", "", "UNRESOLVED-ANCHOR: no calls found in package sanitize")
 	} else {
 		r.OK("C05.R3", "pkg/pdfcpu/sanitize", "closed set of callees", "", fmt.Sprintf("%d calls, all to string primitives of the standard library, the logger or the package itself", n), true)
+	}
+}
+
+// ---------------- C05.R4 (round 4 seed C05-G): functions trusted as sanitizers outside package sanitize ----------------
+
+// checkSanitizerWrappers: R1 trusts the results of the functions in c05Sanitizers. Those in package sanitize are
+// decided by R3; a wrapper outside it (api.sanitizeFilenamePart) is trusted only as far as it hands back what the
+// package returned: every string it can return is a result of a sanitize.* call or a constant — never its own
+// parameter or something derived from it (a "fast path" that returns names it considers plain).
+func checkSanitizerWrappers(c *Ctx) {
+	p, r := c.P, c.R
+	var ids []string
+	for id := range c05Sanitizers {
+		if !strings.HasPrefix(id, "pkg/pdfcpu/sanitize.") {
+			ids = append(ids, id)
+		}
+	}
+	sort.Strings(ids)
+	for _, fid := range ids {
+		fn := p.Func(fid)
+		if fn == nil {
+			r.Bad("C05.R4", fid, "anchor", "", "UNRESOLVED-ANCHOR: a function listed as sanitizer was not found")
+			continue
+		}
+		n := 0
+		for _, ret := range returnsOf(fn) {
+			if len(ret.Results) == 0 {
+				continue
+			}
+			for _, l := range valueLeaves(ret.Results[0]) {
+				n++
+				construct := fmt.Sprintf("returned string#%d", n)
+				v := l
+				if ex, ok := v.(*ssa.Extract); ok {
+					v = ex.Tuple
+				}
+				okLeaf := false
+				what := exprName(l)
+				switch x := v.(type) {
+				case *ssa.Const:
+					okLeaf = true
+				case *ssa.Call:
+					_, ref := callRef(x)
+					what = ref
+					okLeaf = strings.HasPrefix(ref, "pkg/pdfcpu/sanitize.")
+				case *ssa.Parameter:
+					what = "its own parameter " + x.Name()
+				}
+				if okLeaf {
+					r.OK("C05.R4", fid, construct, posOrFn(p, ret, fn), "a result of package sanitize (or a constant)", true)
+				} else {
+					r.Bad("C05.R4", fid, construct, posOrFn(p, ret, fn), "a function whose results R1 accepts as sanitized returns "+what+": names that never went through the path sanitizer (with '/', '\\\\' or '..' in them) reach file paths of extracted images, fonts and metadata and leave the output directory")
+				}
+			}
+		}
+		if n == 0 {
+			r.Bad("C05.R4", fid, "returns", p.Pos(fn.Pos()), "UNDECIDED: no returned string")
+		}
+	}
+}
+
+// ---------------- C05.R5 (round 4 seed C05-H): one reservation covers every output of the extraction ----------------
+
+// checkReservationCoversAll: collisions between attachment outputs are detected by reserving ALL output paths
+// (O_CREATE|O_EXCL) before the first byte is written. That only works if the reservation is taken once for the whole
+// list: a call of reserveAttachmentOutputs inside a loop — or inside an unexported helper that is itself called from a
+// loop — reserves batch by batch, does not see a collision between batches and lets a later batch replace a file an
+// earlier batch wrote.
+func checkReservationCoversAll(c *Ctx) {
+	p, r := c.P, c.R
+	cg := c.CG()
+	target := p.Func("pkg/api.reserveAttachmentOutputs")
+	if target == nil {
+		r.Bad("C05.R5", "pkg/api.reserveAttachmentOutputs", "anchor", "", "UNRESOLVED-ANCHOR")
+		return
+	}
+	inLoop := func(fn *ssa.Function, callee *ssa.Function) (bool, token.Pos, int) {
+		n := 0
+		hit := false
+		var pos token.Pos
+		loops := naturalLoops(fn)
+		eachInstr(fn, func(b *ssa.BasicBlock, _ int, i ssa.Instruction) {
+			call, ok := i.(*ssa.Call)
+			if !ok {
+				return
+			}
+			if f := staticCallee(call); f == nil || unwrapSynthetic(f) != callee {
+				return
+			}
+			n++
+			pos = call.Pos()
+			for _, l := range loops {
+				if l.blocks[b] {
+					hit = true
+				}
+			}
+		})
+		return hit, pos, n
+	}
+	n := 0
+	for _, caller := range cg.In[target] {
+		if !isSubject(caller) {
+			continue
+		}
+		hit, pos, k := inLoop(caller, target)
+		if k == 0 {
+			continue
+		}
+		n++
+		bad := ""
+		if hit {
+			bad = "reserveAttachmentOutputs is called inside a loop"
+		} else if !caller.Object().Exported() {
+			for _, cc := range cg.In[caller] {
+				if h, ppos, kk := inLoop(cc, caller); kk > 0 && h {
+					bad = "the helper that reserves (" + caller.Name() + ") is called from a loop in " + cc.Name()
+					pos = ppos
+				}
+			}
+		}
+		if bad != "" {
+			r.Bad("C05.R5", FuncID(caller), "reservation taken once", p.Pos(pos), bad+": outputs are reserved batch by batch, a name collision between two batches is not seen and the later file silently replaces the earlier one (and earlier batches are on disk when a later collision is reported)")
+		} else {
+			r.OK("C05.R5", FuncID(caller), "reservation taken once", p.Pos(pos), "one reservation for the whole list, outside any loop", true)
+		}
+	}
+	if n == 0 {
+		r.Bad("C05.R5", FuncID(target), "callers", "", "UNRESOLVED-ANCHOR: reserveAttachmentOutputs has no callers")
 	}
 }
